@@ -25,7 +25,7 @@ FLOAT_PATTERNS: Dict[str, List[float]] = {
 # values whose float64 mantissa is not float32-representable: any hidden f32 round trip shows as ~1e-8 relative error
 FLOAT_PATTERNS["f64_mantissa"] = [1.0 + 2.0 ** -40, -(1.0 + 2.0 ** -35), 0.1, 1.0 / 3.0, -2.718281828459045, 1e-3 + 1e-15,
                                   0.7 + 2.0 ** -45, -0.3333333333333333, 1.9999999999999996, 0.5 + 2.0 ** -50, 3.141592653589793]
-QUICK_FLOAT = ("mixed_small", "half_integers", "negative", "zeros")
+QUICK_FLOAT = ("mixed_small", "half_integers", "zeros")
 ALL_FLOAT = tuple(FLOAT_PATTERNS)  # evaluated before f64_mantissa is added below? no: see patterns_for
 
 INT_PATTERNS: Dict[str, List[int]] = {
